@@ -25,9 +25,35 @@ EXPECTED_DEVIATION_LAWS = {"DistDefinedOnlyWhenMaybeSub", "DistZeroOnIdentity", 
                            "OfferedCompatible", "ProvidersAgree"}
 
 
-def check_deviation_model(ctx: Ctx) -> None:
+def design_runs(ctx: Ctx, cfgs: list[str], expect_violation: tuple[str, ...] = ()) -> dict:
+    """Independent TLC runs of the design model TypeSystem.tla, concurrently (own work dirs).
+    Same contract as ctx.design: a violated invariant is a MACHINERY error unless the cfg is
+    listed in expect_violation (deviation models, which must fail)."""
+    import json
+    from concurrent.futures import ThreadPoolExecutor
+
+    from harness import tlc
+
+    def one(cfg):
+        return tlc.run_tlc("TypeSystem", cfg, workdir=ctx.work / f"d-{cfg}", workers=4, timeout=1500)
+
+    with ThreadPoolExecutor(max_workers=len(cfgs)) as ex:
+        results = dict(zip(cfgs, ex.map(one, cfgs)))
+    for cfg, res in results.items():
+        ctx._account(f"TypeSystem[{cfg}]", res, "design")
+        if res.violations and cfg not in expect_violation:
+            v = res.violations[0]
+            raise MachineryError(f"design model TypeSystem ({cfg}) violates {v.name}: the specification itself "
+                                 f"is wrong (not a verdict about the code)\n" + json.dumps(v.states[-2:], indent=1)[:3000])
+        if cfg in expect_violation and not res.violations:
+            raise MachineryError(f"deviation model {cfg} must violate an invariant but TLC found none")
+    return results
+
+
+def check_deviation_model(ctx: Ctx, res=None) -> None:
     """With the known deviations enabled TLC must find exactly the expected laws violated."""
-    res = ctx.design("TypeSystem", "TypeSystem_dev_static.cfg")
+    if res is None:
+        res = ctx.design("TypeSystem", "TypeSystem_dev_static.cfg")
     m = re.search(r'"VIOLATED",\s*\{([^}]*)\}', res.output)
     got = set(re.findall(r'"(\w+)"', m.group(1))) if m else set()
     ctx.notes["laws_violated_by_deviation_model"] = sorted(got)
@@ -190,6 +216,8 @@ def judge(ctx: Ctx, traces: list[dict], behs: list[dict], cfg: str, sig) -> None
     for idx, bad in sorted(verdicts.items()):
         ev = traces[idx]["ev"][0]
         for clause, _step in bad:
+            if clause == "SameGenerators":
+                raise RuntimeError(f"harness: the two clusters of {ev['mod']} registered different generators")
             if clause.startswith("Drift_"):
                 ctx.drift.append(f"{clause} on hierarchy {ev['edges']} ({ev['mod']})")
                 continue
@@ -216,8 +244,9 @@ def run(ctx: Ctx) -> None:
                        "required for chains whose middle type contains no Any, zero distance on identity for "
                        "types that contain no Any (Any is at generator_any_distance from itself by design)",
                        "numeric tower = reflexive transitive closure of issubclass + bool<:int<:float<:complex"]
-    ctx.design("TypeSystem", "TypeSystem.cfg" if ctx.quick else "TypeSystem_thorough.cfg")
-    check_deviation_model(ctx)
+    main_cfg = "TypeSystem.cfg" if ctx.quick else "TypeSystem_thorough.cfg"
+    res = design_runs(ctx, [main_cfg, "TypeSystem_dev_static.cfg"])
+    check_deviation_model(ctx, res["TypeSystem_dev_static.cfg"])
     jobs = hierarchy_cases(ctx)
     traces, behs = run_cases(ctx, jobs)
     ctx.exhaustive = True
